@@ -40,7 +40,7 @@ CHUNK = 8
 
 PROFILE = H.Profile('c14', nops=(3, 16), final_restart=False,
                     weights={'restart': 3, 'add_boot_file': 3, 'add_eltorito': 4, 'add_isohybrid': 1, 'dup_pvd': 0, 'rm_file': 6, 'rm_dir': 4,
-                             'mass_dirs': 0.3, 'mass_files': 0.3})
+                             'mass_dirs': 0.3, 'mass_files': 0.3, 'chain_dirs': 2.5})
 
 
 def generate(seed, tier='quick'):
@@ -115,7 +115,7 @@ def replay(ctx, plan, ops, label, doomed_at=None, doomed=None):
             w.clock.now = op.get('t', w.clock.now)
             if op['op'] == 'restart':
                 try:
-                    d.restart()
+                    d.restart(via=('reuse-decoy' if op.get('reuse') == 'decoy' else 'reuse') if op.get('reuse') else 'fp')
                     d.model.apply(op)
                 except Exception as e:
                     res['refused_edit'] = (i, op, Outcome(False, e))
